@@ -306,6 +306,10 @@ impl PointerValue {
         let deref_size = pcx.type_graph.type_size_in_bytes(pcx.evcx, target_type)? as usize;
 
         self.value.and_then(|ptr| {
+            if deref_size == 0 {
+                // a pointer to a zero-sized type: there is no memory to cut into elements
+                return None;
+            }
             let left = left.unwrap_or_default();
             // user supplied bounds: no result for a reversed or overflowing range
             let count = right.checked_sub(left)?;
